@@ -129,6 +129,10 @@ func c20Session(pass string, capNeg, track bool, scenario int) (*capLogger, []st
 			return lg, nil
 		}
 		if scenario == 0 {
+			if len(pass)%2 == 0 { // the nick was taken: registration goes on under the generator's next one (whatever the client does about its old nick later must not involve the password in clear)
+				sess.srv.SendLine(":irc.test 433 * me :Nickname is already in use")
+				sess.srv.SendLine(":irc.test 001 mf :Welcome mf!ident@host")
+			}
 			sess.srv.SendLine(":irc.test 001 me :Welcome me!ident@host")
 			sess.srv.SendLine(":irc.test CAP * LS :sasl x")
 			sess.srv.SendLine(":me!ident@host JOIN #c")
